@@ -41,7 +41,9 @@ def detach_results(calc: Any) -> dict[str, Any]:
     }
     calc.results = results
 
-    return results
+    # a dictionary of its own: the calculator may complete `calc.results` later on (a
+    # property computed on request for the same configuration) with arrays it recycles
+    return dict(results)
 
 
 class Context:
@@ -103,7 +105,7 @@ class Context:
         This method can be overridden by subclasses to revert specific attributes.
         """
         try:
-            self.atoms.calc.results = self.last_results  # type: ignore[try-attr]
+            self.atoms.calc.results = dict(self.last_results)  # type: ignore[try-attr]
         except AttributeError:
             warn(
                 "Atoms object does not have calculator attached, or does not support the `results` attribute",
